@@ -476,9 +476,9 @@ class UTPM(Ring, RawAlgorithmsMixIn):
         return self * rhs
 
     def __rtruediv__(self, rhs):
-        tmp = self.zeros_like()
-        tmp.data[0,...] = rhs
-        return tmp/self
+        # rhs is a constant (scalar or array): rhs/self = rhs * (1/self), where __mul__
+        # takes care of broadcasting and of the result dtype
+        return UTPM.reciprocal(self) * rhs
 
     def __iadd__(self,rhs):
         if isinstance(rhs,numpy.ndarray) and rhs.dtype == object:
